@@ -119,8 +119,18 @@ func c16Client(rc *RunCtx) {
 	kind := []TransportKind{TkTCP, TkReuse, TkTCPPipeline, TkPipelineStream}[simrt.Choose(4)]
 	rc.Cfg["kind"] = "framing/client " + kind.String()
 	pKill := []int{0, 30, 60}[simrt.Choose(3)]
+	idle := []time.Duration{0, 2 * time.Second}[simrt.Choose(2)]
+	pStall := 0
+	if kind.pipelined() && idle > 0 {
+		pStall = []int{0, 10, 30}[simrt.Choose(3)]
+	}
 	plan := func(sc *simnet.Conn, nth int, call *Call, wid uint16) Action {
 		a := Action{}
+		if simrt.Choose(100) < pStall {
+			// the server stalls inside a frame for longer than the client's idle timeout
+			a.StallForge = idle + time.Duration(200+simrt.Choose(2000))*time.Millisecond
+			return a
+		}
 		x := simrt.Choose(100)
 		if x < pKill/2 {
 			a.CloseAfter = true
@@ -133,7 +143,7 @@ func c16Client(rc *RunCtx) {
 		return a
 	}
 	rc.Net.Handle("tcp", srvAddr, w.Serve(ServerOpts{Plan: plan}))
-	u := w.NewTransport(kind, TransportOpts{})
+	u := w.NewTransport(kind, TransportOpts{IdleTimeout: idle})
 	callers := 1 + simrt.Choose(4)
 	done := make(chan struct{}, callers)
 	for ci := 0; ci < callers; ci++ {
@@ -338,13 +348,24 @@ func c16Damage(rc *RunCtx) {
 }
 
 type c16handler struct {
-	rc *RunCtx
+	rc   *RunCtx
+	sent map[string]bool // question names of the queries the clients really framed
 }
 
 // Handle answers with a payload whose size and content are derived from the
 // query (question name encodes size and salt), after a PRNG delay.
 func (h *c16handler) Handle(ctx context.Context, q *dns.Msg, meta server.QueryMeta, pack func(m *dns.Msg) (*[]byte, error)) *[]byte {
 	var size, salt, wait int
+	if len(q.Question) == 0 && q.Id == 0x0100 {
+		// the frame that follows the runt frame, read at its proper place by a
+		// server that skipped the runt's announced body and went on: legitimate
+		simrt.Probe("c16.frame_after_runt_read_aligned")
+		return nil
+	}
+	if len(q.Question) != 1 || !h.sent[q.Question[0].Name] {
+		h.rc.Fail("server_handled_a_frame_never_sent", "the handler received query %v (ID %#04x), which no client ever sent as a frame: the server lost its place in the stream", q.Question, q.Id)
+		return nil
+	}
 	fmt.Sscanf(q.Question[0].Name, "s%d.k%d.w%d.", &size, &salt, &wait)
 	if wait > 0 {
 		// keep-alive queries: answered much later, so that nothing touches the
@@ -369,9 +390,10 @@ func (h *c16handler) Handle(ctx context.Context, q *dns.Msg, meta server.QueryMe
 
 func c16Server(rc *RunCtx) {
 	l := rc.Net.Listen("tcp", "192.0.2.7:53")
+	hd := &c16handler{rc: rc, sent: map[string]bool{}}
 	srvDone := make(chan struct{}, 1)
 	simrt.GoNamed("ServeTCP", func() {
-		server.ServeTCP(l, &c16handler{rc}, server.TCPServerOpts{IdleTimeout: 5 * time.Second})
+		server.ServeTCP(l, hd, server.TCPServerOpts{IdleTimeout: 5 * time.Second})
 		simrt.Send(0, srvDone, struct{}{})
 	})
 	nclients := 1 + simrt.Choose(3)
@@ -398,6 +420,7 @@ func c16Server(rc *RunCtx) {
 				size := []int{100, 300, 600, 2000, 9000, 30000, 60000}[simrt.Choose(7)]
 				q := mkQuery(fmt.Sprintf("s%d.k%d.c%d.test.", size, i+ci*10, ci), dns.TypeTXT, uint16(1000*ci+i))
 				want[q.Id] = q
+				hd.sent[q.Question[0].Name] = true
 				b := packOrPanic(q)
 				fb := make([]byte, 2+len(b))
 				binary.BigEndian.PutUint16(fb, uint16(len(b)))
@@ -418,6 +441,7 @@ func c16Server(rc *RunCtx) {
 						}
 						q := mkQuery(fmt.Sprintf("s100.k%d.w60000.c%d.test.", 50+k, ci), dns.TypeTXT, uint16(1000*ci+500+k))
 						late[q.Id] = q // answered after a minute; not waited for
+						hd.sent[q.Question[0].Name] = true
 						b := packOrPanic(q)
 						fb := make([]byte, 2+len(b))
 						binary.BigEndian.PutUint16(fb, uint16(len(b)))
@@ -466,6 +490,28 @@ func c16Server(rc *RunCtx) {
 				simrt.Probe("c16.server_reply_intact")
 			}
 			stopKeepalive = true
+			if !slow && simrt.Choose(2) == 0 {
+				// A frame whose length announces less than a DNS header, followed by
+				// more bytes. The runt's body and the following frame are laid out so
+				// that a reader which skips only the runt's header finds a well-formed
+				// frame: [00 02][hi lo] [len2][rest of a query], hi lo = len2+2, so the
+				// "query" has ID len2. The server must report the error (close), never
+				// hand those bytes to the handler.
+				evil := packOrPanic(mkQuery(fmt.Sprintf("evil%d.test.", ci), dns.TypeA, 0))
+				rest := evil[2:]
+				var bs []byte
+				bs = append(bs, 0, 2, byte((len(rest)+2)>>8), byte(len(rest)+2))
+				bs = append(bs, byte(len(rest)>>8), byte(len(rest)))
+				bs = append(bs, rest...)
+				simrt.Fault("client_runt_frame_then_more_bytes")
+				c.WriteRaw(bs)
+				c.SetReadDeadline(time.Now().Add(8 * time.Second))
+				if frame, err := indepRead(c); err == nil {
+					rc.Fail("reply_to_bytes_after_a_runt_frame", "client %d: after a frame of announced length 2 the server went on and answered with a %d-byte frame", ci, len(frame))
+					return
+				}
+				simrt.Probe("c16.runt_frame_ended_the_connection")
+			}
 			c.Close()
 		})
 	}
